@@ -434,17 +434,19 @@ func init() {
 		Title: "A panic escaping an evaluation at any point leaves later evaluations unaffected",
 		Explanation: "Decided: X6 save/restore correspondence: reExecWithFlags registers `defer restore(run, IsDefer(), run.Interrupt, run.CurrEnv)` before it modifies any of them, with each argument a read at entry of exactly the state restore writes back from the matching parameter; restore also clears the synchronous signal; pushDefer/popDefer correspond position by position and popDefer is registered with defer (X5), maybeRepanic is guarded by the frame's own panicking flag; " +
 			"RunExpr/DebugExpr wrap the evaluation in `defer run.setCurrEnv(run.setCurrEnv(env))`; every executor entry clears a stale synchronous signal and prepareEnv clears both signals before each evaluation; O ownership: PanicFun, Panic, DeferOfFun, InstallDefer, Interrupt, CurrEnv, DebugDepth are written only by the enumerated executor/allocator/debugger functions. " +
-			"Not decided: state held outside Run (frames of an unwound exec are simply dropped), side effects of the aborted code, option bits toggled by the REPL driver.",
+			"X8 option bits cleared for one forced evaluation (`:expr` in macro-expand-only or collecting mode) are restored by a deferred function registered before the evaluation starts, in both interpreters. Not decided: state held outside Run (frames of an unwound exec are simply dropped), side effects of the aborted code, option bits toggled by the REPL driver.",
 		Assumptions: []string{"Go runs deferred calls during panics"},
 		Rules: []func(*Ctx){func(c *Ctx) {
 			ruleSaveRestore(c, "X6-save-restore")
+			ruleOptionRestore(c, "X8-option-restore")
 			ruleDeferProtocol(c, "X5-defer-protocol")
 			runStateOwnership(c)
 		}},
 		Mutants: []Mutant{
+			{Name: "forced-eval-options-restored-only-on-success", File: "fast/repl.go", Old: "\tif toenable := cmdOptForceEval(g, opt); toenable != 0 {\n\t\tdefer func() {\n\t\t\tg.Options |= toenable\n\t\t}()\n\t}\n", New: "\ttoenable := cmdOptForceEval(g, opt)\n\tdefer func() {\n\t\tif !trap {\n\t\t\tg.Options |= toenable\n\t\t}\n\t}()\n"},
 			{Name: "restore-saves-after-modification", File: "fast/code.go", Old: "\tdefer restore(run, run.ExecFlags.IsDefer(), run.Interrupt, caller)\n\tef.SetDefer(ef.StartDefer())\n", New: "\tef.SetDefer(ef.StartDefer())\n\tdefer restore(run, run.ExecFlags.IsDefer(), run.Interrupt, caller)\n", Canary: true},
 			{Name: "restore-drops-currenv", File: "fast/code.go", Old: "\trun.Interrupt = interrupt\n\trun.CurrEnv = caller\n", New: "\trun.Interrupt = interrupt\n"},
-			{Name: "runexpr-currenv-not-deferred", File: "fast/repl.go", Old: "\tdefer run.setCurrEnv(run.setCurrEnv(env))\n\n\tfun := e.AsXV(COptKeepUntyped)\n\tv, vs := fun(env)\n\treturn reflect.PackValues", New: "\told := run.setCurrEnv(env)\n\n\tfun := e.AsXV(COptKeepUntyped)\n\tv, vs := fun(env)\n\trun.setCurrEnv(old)\n\treturn reflect.PackValues", Canary: true},
+			{Name: "runexpr-currenv-not-deferred", File: "fast/repl.go", Old: "\tdefer run.setCurrEnv(run.setCurrEnv(env))\n\n\tfun := e.AsXV(COptKeepUntyped)\n\tv, vs := fun(env)\n\treturn reflect.PackValues", New: "\told := run.setCurrEnv(env)\n\n\tfun := e.AsXV(COptKeepUntyped)\n\tv, vs := fun(env)\n\trun.setCurrEnv(old)\n\treturn reflect.PackValues", Nth: 1, Canary: true},
 			{Name: "prepareenv-keeps-async", File: "fast/repl.go", Old: "\tg.Signals.Sync = base.SigNone\n\tg.Signals.Async = base.SigNone\n", New: "\tg.Signals.Sync = base.SigNone\n"},
 			{Name: "new-panicfun-writer", File: "fast/code.go", Old: "\trun.Signals.Sync = base.SigNone\n\tif sig := run.Signals.Async; sig == base.SigInterrupt {", New: "\trun.Signals.Sync = base.SigNone\n\trun.PanicFun = caller\n\tif sig := run.Signals.Async; sig == base.SigInterrupt {"},
 			{Name: "repanic-unconditional", File: "fast/code.go", Old: "\t\tif panicking {\n\t\t\tpanicking = maybeRepanic(run)\n\t\t}", New: "\t\tpanicking = maybeRepanic(run)"},
